@@ -368,6 +368,55 @@ theorem level_c_leaves (WL : WLayers) (hL : WL.OK) (h : WF WL.toLayers) (m : Mas
   rw [← e]
   exact this
 
+/-- The word-level producer (real `split`, real `average_ones`) meets the ORDERED contract as well. -/
+theorem level_c_splitOrd (WL : WLayers) (hL : WL.OK) : SplitOrd (wordSplitter WL) (WordInv WL) := by
+  intro p hp
+  obtain ⟨hok, hg, hlen⟩ := hp
+  obtain ⟨href, oka, okb⟩ := wsplit_refines hL avgOK_real 3 hok
+  have hs := split_ok (sortedL_toLayers WL) (pickOf averageOnes64) 3 p.toIt hg
+  rw [← href] at hs
+  have esplit : (wordSplitter WL).split p = wsplit WL averageOnes64 3 p := rfl
+  rw [esplit]
+  cases hw : wsplit WL averageOnes64 3 p with
+  | mk a ob =>
+    rw [hw] at hs oka okb
+    cases ob with
+    | none =>
+      simp only [Option.map_none] at hs ⊢
+      have ia : WordInv WL a := ⟨oka, hs.2, by rw [hs.1]; exact hlen⟩
+      exact ⟨by rw [wordSplitter_keys hL ia, wordSplitter_keys hL ⟨hok, hg, hlen⟩, hs.1], ia⟩
+    | some b =>
+      simp only [Option.map_some] at hs ⊢
+      obtain ⟨he, ga, gb⟩ := hs
+      have hl : (items WL.toLayers a.toIt).length + (items WL.toLayers b.toIt).length =
+          (items WL.toLayers p.toIt).length := by rw [← he, List.length_append]
+      have ia : WordInv WL a := ⟨oka, ga, by omega⟩
+      have ib : WordInv WL b := ⟨okb b rfl, gb, by omega⟩
+      rw [wordSplitter_keys hL ia, wordSplitter_keys hL ib, wordSplitter_keys hL ⟨hok, hg, hlen⟩]
+      exact ⟨he, ia, ib⟩
+
+/-- **C07, early exit, at Level C** (machine words, the Rust word operations): `find_first` / `find_last` over the leaves
+    of any split tree of the word-level producer are the sequential join's first / last match. -/
+theorem level_c_find_first_last (WL : WLayers) (hL : WL.OK) (h : WF WL.toLayers) (m : Mask)
+    (hb : m.Bdd MAXIDX) (hrep : ∀ i, i < MAXIDX → WL.toLayers.contains i = m.mem i) (t : SplitTree)
+    (pred : Nat → Bool) :
+    parFindFirst pred ((leaves (wordSplitter WL) t (wfresh WL)).map (wordSplitter WL).keys)
+      = (m.toList MAXIDX).find? pred ∧
+    parFindLast pred ((leaves (wordSplitter WL) t (wfresh WL)).map (wordSplitter WL).keys)
+      = (m.toList MAXIDX).reverse.find? pred := by
+  have hi := wordInv_fresh hL h
+  have ho := (leaves_in_order _ _ (level_c_splitOrd WL hL) t _ hi).1
+  rw [wordSplitter_keys hL hi, wfresh_toIt, items_fresh_eq h] at ho
+  have e : (List.range (B * B * B * B)).filter WL.toLayers.contains = m.toList MAXIDX := by
+    rw [Mask.toList_eq_filter MAXIDX m (fun _ => hb)]
+    apply List.filter_congr
+    intro i hi
+    exact hrep i (List.mem_range.mp hi)
+  rw [e] at ho
+  constructor
+  · unfold parFindFirst; rw [findSome_find_flatten, ho]
+  · unfold parFindLast; rw [findLast_flatten, ho]
+
 /-- **C07 (a) at Level C, end to end.** For every world whose bit sets are machine words (`WLWorld`)
     representing the Level-A world, every member list and every split tree: the parallel join driven
     by the word-level `BitProducer` (real `split`, real `average_ones`, word-level `BitIter` in
